@@ -96,6 +96,15 @@ def build_pool(seed: int, tier: str):
     add("fail-inside-nested-include", "*=0x018000\n.include 'outer.s'\n", "low", {"outer.s": ".db 1\n.include 'part.s'\n", "part.s": "lb_inc:\n$\n"}, entries=("mem",))
     add("nested-include-user", "*=0x018000\n.include 'outer.s'\n.dl lb_inc\n", "low", {"outer.s": ".db 1\n.include 'part.s'\n", "part.s": "lb_inc:\n.db 7\n"}, entries=("mem", "file_sfc"))
     add("fail-codegen-inside-include", "*=0x018000\n.include 'part.s'\n", "low", {"part.s": "lb_inc:\nm_nope_zz(1)\n"}, entries=("mem",))
+    # degenerate constructs: bodies / files / arguments that expand to nothing, and programs that are sensitive to what such a
+    # construct "contains" (anything that stands for "no code" must not be shared between assemblies)
+    add("empty-include-first", ".include 'part.s'\n*=0x018000\n.db 0xaa, 0xbb\nlb_e:\n.dl lb_e\n", "low", {"part.s": "; nothing here\n"}, entries=("mem", "file_ips"))
+    add("empty-include-in-body", "*=0x028000\n{\n.include 'part.s'\n.db 0xcc\n}\n.scope sc_e {\n.include 'part.s'\nlb_f:\n.db 0xdd\n}\n", "low", {"part.s": ""}, entries=("mem", "cli"))
+    add("empty-block-argument-first", ".macro m_wrap(p_blk) {\n{{p_blk}}\n.db 0x77\nlb_w:\n}\n*=0x038000\nm_wrap({\n})\nm_wrap({\n.db 1\n})\n", "low", entries=("mem", "file_sfc"))
+    add("empty-constructs", "*=0x008000\n.macro m_hook() {\n}\n.db 0x11\nm_hook()\n{\n}\n.scope sc_n {\n}\n.if 1 {\n}\n.if 0 {\n.db 9\n} else {\n}\n.for i_e := 0, 2 {\n}\nm_hook()\n.db 0x22\nlb_end:\n.dl lb_end\n",
+        "low", entries=all_entries, probes=["lb_end"])
+    add("empty-source", "", "low", entries=("mem", "file_ips"))
+    add("comment-only-source", "; just a comment\n/* and a block */\n", "low", entries=("mem", "cli"))
     for j, job in enumerate(jobs):
         job["id"] = j
     return jobs
